@@ -26,6 +26,7 @@ def base_configs(tier):
     out = [
         dict(base, sym=['spikes'], label='', factor=1.0, wm='diag'),
         dict(base, sym=['spikes'], label='probe00', factor=2.5, wm='I', optional={'pc_features': 'no'}),
+        dict(base, sym=[], label='probe', factor=1.0, wm='I', optional={'pc_features': 'no'}),   # substring of a file name
         dict(base, sym=['templates'], label='', factor=1.0, wm='dense', optional={'pc_features': 'no',
                                                                                     'template_features': 'no'}),
         dict(base, sym=['ids'], curated=True, label='probe00', factor=1.0, wm='I'),
